@@ -4,6 +4,7 @@ ones): apply seeded/<name>/patch.diff to /repo, run ./check <property>, revert /
 Prints one JSON line per change (to be merged into seeded/<name>/meta.json by --merge <logfile>)."""
 import sys, os, json, subprocess, time
 ROOT = os.path.dirname(os.path.dirname(os.path.abspath(__file__)))
+REPO = os.environ.get('VERIF_REPO', '/repo')      # the copy of the repository the checks are pointed at
 
 def sh(cmd, cwd=None, timeout=3000):
     e = dict(os.environ); e['CARGO_NET_OFFLINE'] = 'true'
@@ -24,16 +25,18 @@ def merge(log):
 def main():
     if len(sys.argv) > 2 and sys.argv[1] == '--merge':
         return merge(sys.argv[2])
-    names = sys.argv[1:] or sorted(os.listdir(os.path.join(ROOT, 'seeded')))
+    target_only = '--target-only' in sys.argv
+    args = [a for a in sys.argv[1:] if a != '--target-only']
+    names = args or sorted(os.listdir(os.path.join(ROOT, 'seeded')))
     rc, commit = sh('git rev-parse --short HEAD', cwd=ROOT)
-    rc, out = sh('git -C /repo status --porcelain')
+    rc, out = sh('git -C %s ' % REPO + 'status --porcelain')
     assert out.strip() == '', '/repo not clean: ' + out
     for name in names:
         d = os.path.join(ROOT, 'seeded', name)
         meta = json.load(open(os.path.join(d, 'meta.json')))
         prop = meta['breaks_property']
-        checks = sorted(set([prop] + [c for c in meta.get('checks', {}) if meta['checks'][c].get('detected')]))
-        rc, out = sh('git -C /repo apply %s' % os.path.join(d, 'patch.diff'))
+        checks = [prop] if target_only else sorted(set([prop] + [c for c in meta.get('checks', {}) if meta['checks'][c].get('detected')]))
+        rc, out = sh('git -C %s ' % REPO + 'apply %s' % os.path.join(d, 'patch.diff'))
         if rc != 0:
             print(json.dumps({'name': name, 'error': 'patch does not apply: ' + out[-200:]})); continue
         res = {}
@@ -46,7 +49,7 @@ def main():
                 res[c] = {'exit': rc, 'violation_lines': viol[:3], 'why': why[:3], 'wall_s': round(time.time() - t0, 1),
                           'detected': rc != 0, 'with_failing_input': any('no-failing-input-found' not in v for v in viol)}
         finally:
-            sh('git -C /repo checkout -- .')
+            sh('git -C %s ' % REPO + 'checkout -- .')
             sh('git checkout -- evidence', cwd=ROOT)
         print(json.dumps({'name': name, 'commit': commit.strip(), 'checks': res}), flush=True)
 
